@@ -58,10 +58,10 @@ func kvAttr(a kv) slog.Attr {
 }
 
 type c07case struct {
-	Chain   [][]kv   `json:"chain"`     // own attributes per level, outermost first; the last one logs
-	Call    []kv     `json:"call"`      // call-site attributes
-	CtxKeys []string `json:"ctx_keys"`  // registered context keys of the logging logger: "s:<name>" string key, "S:<name>" Stringer key, "x:<name>" other-typed key
-	CtxHas  []string `json:"ctx_has"`   // keys present in the context (same notation)
+	Chain   [][]kv   `json:"chain"`    // own attributes per level, outermost first; the last one logs
+	Call    []kv     `json:"call"`     // call-site attributes
+	CtxKeys []string `json:"ctx_keys"` // registered context keys of the logging logger: "s:<name>" string key, "S:<name>" Stringer key, "x:<name>" other-typed key
+	CtxHas  []string `json:"ctx_has"`  // keys present in the context (same notation)
 	NilCtx  bool     `json:"nil_ctx"`
 	AttrsR  bool     `json:"inherit_flag"`
 	Format  string   `json:"format"`
@@ -464,6 +464,7 @@ func ctxSets() []ctxSet {
 		{keys: []string{"s:ctxs"}, has: []string{"s:ctxs"}},
 		{keys: []string{"s:ctxs", "s:absent"}, has: []string{"s:ctxs", "s:unregistered"}},
 		{keys: []string{"S:ctxS", "s:a", "x:other"}, has: []string{"S:ctxS", "s:a", "x:other"}},
+		{keys: []string{"s:absent", "s:ctxs", "S:gone", "S:ctxS"}, has: []string{"s:ctxs", "S:ctxS"}},
 		{keys: []string{"s:ctxs"}, has: nil, nilCtx: true},
 	}
 }
@@ -499,7 +500,7 @@ func c07cases(thorough bool, emit func(c07case)) {
 				for si, cs := range ctxSets() {
 					// the full cross product is used for short chains; for longer chains
 					// the context sets rotate (every set still meets every chain shape class)
-					if len(ch) >= 3 && !thorough && si != ci%5 {
+					if len(ch) >= 3 && !thorough && si != ci%6 {
 						continue
 					}
 					for _, r := range []bool{false, true} {
